@@ -345,7 +345,8 @@ func runHistory(c *mon.Case) {
 
 func Spec() *mon.Spec {
 	return &mon.Spec{
-		ID: "C07", Level: "exploration",
+		ID:            "C07",
+		SpinViolation: true, Level: "exploration",
 		Rule:        "case = history of 300 assoc/dissoc (incl. nil key, replacements, absent deletes, branching from older versions) over a pool of 8..600 keys whose 32-bit hashes are constructed to share the low 5*d bits (d=0..6), collide fully, or be random; after every step the new version AND the version it was derived from are compared completely (Len, Index of every pool key, nil key, full iteration exactly-once) with a Go-map reference, older versions re-checked periodically and all versions at the end. Non-trivial = history in which a node fan-out crossed 16->17 or dropped 8->7 at some depth, or a full-hash collision group grew/shrank (inferred from the key hashes); distinct by pool shape + trace.",
 		Assumptions: []string{"node-type transitions (bitmap<->array, collision nodes) are inferred from the constructed hashes, not observed inside the package"},
 		Phases:      []mon.Phase{{Name: "history", Quick: 4000, Thorough: 60000, Run: runHistory}},
